@@ -74,7 +74,7 @@ func backendScen(c *Ctx) {
 	nb := 3 + r.Intn(4)
 	for i := 0; i < nb; i++ {
 		sz := []int64{3000, 100, 4096, 4097, 70000, 1<<20 + 1, 1, 2<<20 + 17}[r.Weighted(4, 3, 2, 2, 2, 1, 1, 1)]
-		b := world.Make(world.BlobID{Kind: r.Intn(3), Seed: 8000 + i, Size: sz})
+		b := world.Make(world.BlobID{Kind: r.Intn(4), Seed: 8000 + i, Size: sz})
 		keys = append(keys, &bKey{kind: cache.CAS, hash: b.Hash, data: b.Data})
 	}
 	for i := 0; i < 2; i++ {
